@@ -214,26 +214,26 @@ CLAIMED["C01"] = dict(
 
 # Rules added after the seeded-change rounds (DESIGN section 9) — appended to the level statements
 _ADDED = {
-    "C01": " Also: a loop driven by Read::read leaves the loop on a zero-length read (two idioms). The PANIC review rows name their operands (no per-function blanket); index sites of the byte-window trim are discharged by an invariant rule (index = V - 1, V only len() or a decrement of itself).",
-    "C02": " Also (RECORD:seed): on the anchored edge the recording frame {id, depth 1, seeded with the start event} is pushed before record() is told to skip the last frame, and record() skips exactly that frame. An anchor on `<<` does not change what the key is (is_merge_key judges every KeyNode variant by its events).",
-    "C03": " Also: every own key handed to the visitor is recorded in the seen-set first, unconditionally. Every captured element of a merge sequence is classified by the recursive expansion; a `!!str` scalar is not a null merge value; is_merge_key is variant-blind.",
-    "C05": " Also (OWN-NODE): VariantAccess methods touch the shared event stream only in `{Variant: payload}` mode; option null-likeness shares C06's STYLE rule. The streaming SeqAccess never hands the SequenceEnd event to an element seed; the !!binary byte view rejects surplus bytes; re-emitted scalar payloads keep their tag or have none.",
-    "C06": " Also (ORDER): deserialize_any attempts null, bool, int, float, string in that order. Every null-likeness test of the deserializer is accompanied by a `!!str` test on every path; every possibly-true answer of scalar_is_nullish lies behind the Plain edge; every core tag is reached by its shorthand, local and verbatim spelling.",
+    "C01": " Also: a loop driven by Read::read leaves the loop on a zero-length read (two idioms). The PANIC review rows name their operands (no per-function blanket); index sites of the byte-window trim are discharged by an invariant rule (index = V - 1, V only len() or a decrement of itself). A loop that pulls from the parser leaves it on an `Err` item (the parser repeats a scan error forever). The anchor store's borrows run no user code, borrow nothing again and drop no stored value (invariant rule, F58).",
+    "C02": " Also (RECORD:seed): on the anchored edge the recording frame {id, depth 1, seeded with the start event} is pushed before record() is told to skip the last frame, and record() skips exactly that frame. An anchor on `<<` does not change what the key is (is_merge_key judges every KeyNode variant by its events). The per-document anchor table is cleared whole (the clearing loop runs over the field, not a sub-range).",
+    "C03": " Also: every own key handed to the visitor is recorded in the seen-set first, unconditionally. Every captured element of a merge sequence is classified by the recursive expansion; a `!!str` scalar is not a null merge value; is_merge_key is variant-blind. Lists of pending entries are built by appending only (no in-place overwrite, removal, de-duplication or sort anywhere in the deserializer).",
+    "C05": " Also (OWN-NODE): VariantAccess methods touch the shared event stream only in `{Variant: payload}` mode; option null-likeness shares C06's STYLE rule. The streaming SeqAccess never hands the SequenceEnd event to an element seed; the !!binary byte view rejects surplus bytes; re-emitted scalar payloads keep their tag or have none. A replayed container holds every element delivered while it was recorded (shared RECORD rule).",
+    "C06": " Also (ORDER): deserialize_any attempts null, bool, int, float, string in that order. Every null-likeness test of the deserializer is accompanied by a `!!str` test on every path; every possibly-true answer of scalar_is_nullish lies behind the Plain edge; every core tag is reached by its shorthand, local and verbatim spelling. decode_val knows the 64 symbols of the base64 alphabet and no other byte; the value narrowed by try_from derives from a digit accumulator on every alternative of its value path.",
     "C07": " Also (SLOT): a replayed alias gives its key/value slot back to the replayed node before the replay is scheduled, and only then. The alias/anchor ratio is evaluated only at the end of a counting unit (finalize, or DocumentEnd under per-document enforcement) and there for every document; total_scalar_bytes grows by len(text) at every increment (followed through helpers and callers).",
-    "C08": " Also: every replayed event is counted (by exactly 1) and compared before it is handed on. A replayed scalar is charged its full text length (shared operand rule).",
-    "C09": " Also (CHUNK): partial reads of a character's continuation bytes are retried in a loop that writes behind the bytes received. Byte offsets (absent for reader input) are read only by the Span accessors / Spanned exposure / miette conversion; the BOM is stripped exactly once on the way to the parser.",
-    "C10": " Also (TAKE-ONCE): the stored I/O error is never taken after seen_doc_end was set in the same pump call (interprocedural set / take ordering).",
+    "C08": " Also: every replayed event is counted (by exactly 1) and compared before it is handed on. A replayed scalar is charged its full text length (shared operand rule). finish(), which drops the budget enforcer, is called by the reviewed entry points / iterators only, and nothing else takes the enforcer.",
+    "C09": " Also (CHUNK): partial reads of a character's continuation bytes are retried in a loop that writes behind the bytes received. Byte offsets (absent for reader input) are read only by the Span accessors / Spanned exposure / miette conversion; the BOM is stripped exactly once on the way to the parser. Every construction of the event source passes stop_at_doc_end = false.",
+    "C10": " Also (TAKE-ONCE): the stored I/O error is never taken after seen_doc_end was set in the same pump call (interprocedural set / take ordering). The reader's byte limit is max_reader_input_bytes through Option plumbing only, passed on and stored unchanged; the only silent end of input is the Ok(0) edge of the first-byte read (F59); a reader failure is latched and skip_to_next_document finds no next document after it (F60).",
     "C12": " Also: bare float words derived from the reader's core-parse fallback, Unicode edge blanks (sibling of str::trim), the block indentation indicator is relative and step-guarded and decided on the first non-empty line, long keys take the explicit form. The two float writers only append and emit the same pieces.",
-    "C13": " Also: HINT-RESET, SIBLING over the dash emitters and the variant positioners, and ALIGN / EMPTY, whose four sites are the recorded known findings K1 / K2 (printed as KNOWN-FINDING lines). serialize_newtype_variant clears pending_inline_map on every path to the payload.",
-    "C14": " Also (PLACEHOLDER): the null delivered for a cyclic alias carries the alias's anchor id. the document scope swaps the whole anchor state out and back (shared with C15: STATE:scope-swaps-whole-state).",
-    "C15": " Also: every guard's Drop performs its restore on every path. The document scope sets the enclosing call's error-location fallback aside (also on unwinding); reset-complete is a path rule per field.",
-    "C16": " Also (USE-SITE): both event sources consult their use-site override before any other condition. A function that has a use-site parameter builds its replay source with it; reference-less replays are a reviewed table.",
-    "C17": " Also (COLUMN): the two-sided cropper is applied to context lines only, so the stored error line keeps the prefix the renderer indexes. The secondary window measures the caret on the text returned by the cropper and formats every line with the gutter width.",
+    "C13": " Also: HINT-RESET, SIBLING over the dash emitters and the variant positioners, and ALIGN / EMPTY, whose four sites are the recorded known findings K1 / K2 (printed as KNOWN-FINDING lines). serialize_newtype_variant clears pending_inline_map on every path to the payload. Every writer of an anchor / alias mark indents first when the line is at its start (itself or at each call site); the deeper indentation of an empty `[]` is decided from current_map_depth and depth alone.",
+    "C14": " Also (PLACEHOLDER): the null delivered for a cyclic alias carries the alias's anchor id. the document scope swaps the whole anchor state out and back (shared with C15: STATE:scope-swaps-whole-state). The variant emitters consume a staged anchor for the variant's own node before writing its label (F61); the scalar emitters consume it before their text, through whichever helper does.",
+    "C15": " Also: every guard's Drop performs its restore on every path. The document scope sets the enclosing call's error-location fallback aside (also on unwinding); reset-complete is a path rule per field. with_document_scope takes the whole anchor state out (mem::take at the state's own type) and its guard puts back exactly what was taken (F57).",
+    "C16": " Also (USE-SITE): both event sources consult their use-site override before any other condition. A function that has a use-site parameter builds its replay source with it; reference-less replays are a reviewed table. No path from a consuming call reaches a reference_location() read without a peek(); a node captured and replayed where it is used is replayed at_use_site, fed by a use-site read (F62).",
+    "C17": " Also (COLUMN): the two-sided cropper is applied to context lines only, so the stored error line keeps the prefix the renderer indexes. The secondary window measures the caret on the text returned by the cropper and formats every line with the gutter width. Bytes enter the reader's recent-bytes window through push_ring_bytes only, which counts evicted newlines.",
     "C18": " Also (USE-SITE, shared with C16). The validator error-tree walker hands every child its own path (shared reference, or every pushed segment popped before the same push runs again).",
-    "C19": " Also (IDENTITY): expr / term initialise their result from the nested call's value without arithmetic. Parenthesised groups and signs pass the unit flags of their sub-expression on unchanged.",
-    "C20": " Also (FLOW-KEY): keys of a flow mapping are tested with the flow rules. The key / label quoting rule is used only where `:` follows; the variant serializers write their block form only outside flow collections and open `{Variant: …}` inside.",
-    "C04": " An already-seen key is dropped silently only while flushing merges or under FirstWins; the live duplicate-key error is located at the key's use-site read before it is captured.",
-    "C11": " The per-document RESET rule of the enforcer is part of this check (shared with C07).",
+    "C19": " Also (IDENTITY): expr / term initialise their result from the nested call's value without arithmetic. Parenthesised groups and signs pass the unit flags of their sub-expression on unchanged. A sexagesimal literal multiplies by DEG2RAD only outside unit functions.",
+    "C20": " Also (FLOW-KEY): keys of a flow mapping are tested with the flow rules. The key / label quoting rule is used only where `:` follows; the variant serializers write their block form only outside flow collections and open `{Variant: …}` inside. Comment staging / writing is guarded by any form of the in_flow == 0 test; the empty-sequence indentation rule is shared with C13.",
+    "C04": " An already-seen key is dropped silently only while flushing merges or under FirstWins; the live duplicate-key error is located at the key's use-site read before it is captured. A scalar key's application tag enters its fingerprint as the raw tag text through Option / string plumbing only.",
+    "C11": " The per-document RESET rule of the enforcer is part of this check (shared with C07). Every fallible step of Events::next is a step of Events::peek; the per-document tables are cleared whole.",
 }
 
 NOT_APPLICABLE = {("C%02d" % i): _NB for i in range(1, 21) if ("C%02d" % i) not in CLAIMED}
